@@ -84,7 +84,7 @@ def main():
     summary = summary or {"violations": 0, "counters": {}, "samples": []}
     violations += summary["violations"]
     # reduced pass under valgrind memcheck (covers reads inside the uninstrumented Rust code)
-    vg = run(exes["driver_plain"], [tier], env_extra={"C17_STRIDE_MULT": "16" if tier == "quick" else "4"},
+    vg = run(exes["driver_plain"], [tier], env_extra={"C17_STRIDE_MULT": "16" if tier == "quick" else "64"},
              prefix=["valgrind", "--error-exitcode=68", "--quiet", "--leak-check=no"], timeout=900 if tier == "quick" else 6 * 3600)
     vg_summary = None
     for line in vg.stdout.splitlines():
